@@ -131,8 +131,78 @@ let cmd_tables () =
   print_string ("items_bangops " ^ items_string bang_operator_items ^ "\n");
   flush stdout
 
+(* ---------------------------------------------------------------------------------------------
+   symcomp: one workspace file per line; sections separated by "||":
+     OP <code> <args..>   one symbol-map op (hook H3 log line encoded by lib/complib.py; names as comma-separated code points)
+     T <tree>             the real tree of the file the offsets refer to
+     Q <off> <off> ..     completion (no trigger) at these offsets
+   Output: "ERR <why>" when the log does not replay, else
+     "CLASSES name:ntargs .. ; <result per offset separated by ' ; '>"   result = NONE | ITEMS item.. *)
+let name_of_tok (s : ostring) : n list = if s = "-" then [] else List.map (fun x -> n_of_int (int_of_string x)) (String.split_on_char ',' s)
+let ni s = n_of_int (int_of_string s)
+let fr f lo hi = { fr_file = ni f; fr_lo = ni lo; fr_hi = ni hi }
+let kind_of_tok = function
+  | "record" -> KRecord | "template_arg" -> KTemplateArg | "record_field" -> KRecordField | "variable" -> KVariable
+  | "defset" -> KDefset | "multiclass" -> KMulticlass | "defm" -> KDefm | s -> failwith ("kind " ^ s)
+let parse_op (toks : ostring list) : op =
+  match toks with
+  | ["AR"; nm; k; f; lo; hi; g; id] -> OpAddRecord (name_of_tok nm, (if k = "C" then RKClass else RKDef), fr f lo hi, g = "1", ni id)
+  | ["AAD"; nm; f; lo; hi; id] -> OpAddAnonymousDef (name_of_tok nm, fr f lo hi, ni id)
+  | ["ATA"; nm; ty; f; lo; hi; id] -> OpAddTemplateArg (name_of_tok nm, name_of_tok ty, fr f lo hi, ni id)
+  | ["ARF"; nm; ty; f; lo; hi; par; id] -> OpAddRecordField (name_of_tok nm, name_of_tok ty, fr f lo hi, ni par, ni id)
+  | ["AV"; nm; ty; f; lo; hi; id] -> OpAddVariable (name_of_tok nm, name_of_tok ty, fr f lo hi, ni id)
+  | ["ADS"; nm; ty; f; lo; hi; id] -> OpAddDefset (name_of_tok nm, name_of_tok ty, fr f lo hi, ni id)
+  | ["AMC"; nm; f; lo; hi; id] -> OpAddMulticlass (name_of_tok nm, fr f lo hi, ni id)
+  | ["ADM"; nm; f; lo; hi; g; id] -> OpAddDefm (name_of_tok nm, fr f lo hi, g = "1", ni id)
+  | ["AADM"; nm; f; lo; hi; id] -> OpAddAnonymousDefm (name_of_tok nm, fr f lo hi, ni id)
+  | ["REF"; k; idx; f; lo; hi] -> OpAddReference ((kind_of_tok k, ni idx), fr f lo hi)
+  | ["RM"; id] -> OpRecordMut (ni id)
+  | ["DSM"; id] -> OpDefsetMut (ni id)
+  | ["MCM"; id] -> OpMulticlassMut (ni id)
+  | ["DMM"; id] -> OpDefmMut (ni id)
+  | ["RTA"; nm; id] -> OpRecAddTemplateArg (name_of_tok nm, ni id)
+  | ["RF"; nm; id] -> OpRecAddField (name_of_tok nm, ni id)
+  | ["RP"; id] -> OpRecAddParent (ni id)
+  | ["DAD"; id] -> OpDefsetAddDef (ni id)
+  | ["MTA"; nm; id] -> OpMcAddTemplateArg (name_of_tok nm, ni id)
+  | ["MP"; id] -> OpMcAddParent (ni id)
+  | ["DMP"; id] -> OpDefmAddParent (ni id)
+  | ["ERR"; f; lo; hi] -> OpError (fr f lo hi)
+  | _ -> failwith ("bad op: " ^ String.concat " " toks)
+let split_sections (line : ostring) : ostring list list =
+  let rec go acc cur = function
+    | [] -> List.rev (List.rev cur :: acc)
+    | "||" :: r -> go (List.rev cur :: acc) [] r
+    | x :: r -> go acc (x :: cur) r in
+  List.filter (fun s -> s <> []) (go [] [] (split_ws line))
+let err_string = function
+  | EInvalidId _ -> "invalid id" | EIntervalEmpty -> "interval empty" | EAnonymousNotDef -> "anonymous not def"
+  | ENoCursor -> "no cursor" | EIdMismatch -> "id mismatch" | EOutOfFuel -> "out of fuel"
+let rec int_of_nat (x : nat) : int = match x with O -> 0 | S y -> 1 + int_of_nat y
+let cmd_symcomp line =
+  try
+    let secs = split_sections line in
+    let ops = List.filter_map (function "OP" :: r -> Some (parse_op r) | _ -> None) secs in
+    let tree = List.find_map (function "T" :: r -> Some (fst (parse_tree r)) | _ -> None) secs in
+    let offs = List.concat (List.filter_map (function "Q" :: r -> Some r | _ -> None) secs) in
+    match run_ops ops with
+    | SErr e -> "ERR op log does not replay: " ^ err_string e
+    | SOk st ->
+        (match class_syms st, tree with
+         | SErr e, _ -> "ERR class_syms panics: " ^ err_string e
+         | SOk cl, None -> "CLASSES " ^ String.concat " " (List.map (fun c -> field_of_text c.cs_name ^ ":" ^ string_of_int (int_of_nat c.cs_ntargs)) cl)
+         | SOk cl, Some tr ->
+             "CLASSES " ^ String.concat " " (List.map (fun c -> field_of_text c.cs_name ^ ":" ^ string_of_int (int_of_nat c.cs_ntargs)) cl) ^ " ; " ^
+             String.concat " ; " (List.map (fun o ->
+               match completion_sm st tr (n_of_int (int_of_string o)) None with
+               | SErr e -> "ERR " ^ err_string e
+               | SOk None -> "NONE"
+               | SOk (Some its) -> "ITEMS " ^ items_string its) offs))
+  with Failure m -> "ERR driver: " ^ m
+
 let () =
   match Sys.argv with
+  | [| _; "symcomp" |] -> each_line cmd_symcomp
   | [| _; "comp" |] -> each_line cmd_comp
   | [| _; "lex" |] -> each_line cmd_lex
   | [| _; "stmt" |] -> each_line cmd_stmt
